@@ -439,3 +439,34 @@ m('put-hash-length-after-key', 'R15e', 'cache/disk/disk.go',
 		return badReqErr("Invalid hash size: %d, expected: %d", len(hash), sha256.Size)
 	}
 ''')
+m('verifier-counts-requested-bytes', 'R01e', 'utils/sha256verifier/sha256verifier.go',
+  '''	if n > 0 {
+		s.actualSize += int64(n)
+	}''',
+  '''	if n > 0 {
+		s.actualSize += int64(len(p))
+	}''')
+m('verifier-closes-before-hash-compare', 'R01e', 'utils/sha256verifier/sha256verifier.go',
+  '''	actualHash := hex.EncodeToString(s.Sum(nil))
+	if actualHash != s.expectedHash {
+		return fmt.Errorf("error: expected hash %s, got %s", s.expectedHash, actualHash)
+	}
+
+	err := s.originalWriteCloser.Close()
+	if err != nil {
+		return err
+	}
+''',
+  '''	err := s.originalWriteCloser.Close()
+	if err != nil {
+		return err
+	}
+
+	actualHash := hex.EncodeToString(s.Sum(nil))
+	if actualHash != s.expectedHash {
+		return fmt.Errorf("error: expected hash %s, got %s", s.expectedHash, actualHash)
+	}
+''')
+m('verifier-file-bypasses-hash', 'R01e', 'utils/sha256verifier/sha256verifier.go',
+  '''		multiWriter:         io.MultiWriter(hash, writeCloser),''',
+  '''		multiWriter:         io.MultiWriter(writeCloser, writeCloser),''')
